@@ -93,7 +93,17 @@ class Consumer:
         BROKER.calls.append(("consumer", self.group, params.get("enable.auto.commit"), params.get("auto.offset.reset")))
 
     def subscribe(self, topics):
-        pass
+        # group subscription: every partition of the topics, from the group's committed offset, else from the reset position
+        # (an explicit assign() afterwards replaces it)
+        self.assigned = []
+        for t in topics:
+            for p, log in enumerate(BROKER.logs.get(t, [])):
+                off = BROKER.committed.get((self.group, t, p))
+                if off is None:
+                    off = 0 if self.params.get("auto.offset.reset") == "earliest" else len(log)
+                self.assigned.append([t, p, off])
+        self.subscribed = True
+        self.joining = True
 
     def unsubscribe(self):
         pass
@@ -103,12 +113,17 @@ class Consumer:
         BROKER.calls.append(("assign", [(tp.topic, tp.partition, tp.offset) for tp in tps]))
 
     def poll(self, timeout=None):
+        if getattr(self, "joining", False):
+            self.joining = False        # (the first poll after subscribe() only joins the group)
+            return None
         for a in self.assigned:
             topic, p, off = a
             log = BROKER.logs.get(topic, [])
             if p < len(log) and off < len(log[p]):
                 k, v = log[p][off]
                 a[2] = off + 1
+                if getattr(self, "subscribed", False) and str(self.params.get("enable.auto.commit", "true")).lower() != "false":
+                    BROKER.committed[(self.group, topic, p)] = off + 1      # auto-commit (idealised: at once)
                 return Message(topic, p, off, k, v)
         return None
 
